@@ -76,8 +76,8 @@ class RemapIndices(AtomsProperty):
         # group indices by species so that we only compare the same species' positions
         if check_species:
             species_list = list(set(s.get_chemical_symbols()))
-            s_species_groups = [[atom.index for atom in s if atom.symbol in species] for species in species_list]
-            r_species_groups = [[atom.index for atom in reference if atom.symbol in species] for species in species_list]
+            s_species_groups = [[atom.index for atom in s if atom.symbol == species] for species in species_list]
+            r_species_groups = [[atom.index for atom in reference if atom.symbol == species] for species in species_list]
         else:
             species_list = ['all']
             s_species_groups = [range(n)]
